@@ -257,13 +257,21 @@ example : (run { head := [1, 2, 3], index := [1, 2, 3], work := [1, 2, 3] }
     [.aiEdit 7 [1, 2, 10, 3], .stage [1, 2, 3], .commit, .humanCheckpoint, .stageAll, .commit]).notes
     = [[(3, 7)], []] := by decide
 
-/-- the excluded region (known finding): a person inserts line 99 just above the pending AI line
-    (id 10, pending at line 3) before any checkpoint; INITIAL's bare line number 3 now points at
-    the person's line: the note credits session 7 with line 3 (id 99) and loses the AI line. -/
-theorem witness_pending_edited_before_checkpoint :
+/-- regression witness of the repaired defect (`fix:` INITIAL records the content its line numbers
+    refer to): a person inserts line 99 just above the pending AI line (id 10, pending at line 3)
+    before any checkpoint. INITIAL's line number 3 used to be applied to the edited content — the
+    note credited session 7 with the person's line and lost the AI line; it is now carried over
+    through the recorded content: the note credits line 4 (id 10), and the history is valid
+    (`ValidOps2` has no excluded region any more). -/
+theorem regression_pending_edited_before_checkpoint :
     (run { head := [1, 2, 3], index := [1, 2, 3], work := [1, 2, 3] }
       [.aiEdit 7 [1, 2, 10, 3], .stage [1, 2, 3], .commit, .humanEdit [1, 2, 99, 10, 3], .stageAll, .commit]).notes.head?
-      = some [(3, 7)] := by decide
+      = some [(4, 7)] := by decide
+
+example : ValidOps2 (cleanSpec [1, 2, 3] (fun _ => none))
+    [.aiEdit 7 [1, 2, 10, 3], .stage [1, 2, 3], .commit, .humanEdit [1, 2, 99, 10, 3], .stageAll, .commit] := by
+  simp [ValidOps2, ValidOp2, ValidEdit, ValidEditH, CommitOK, cleanSpec, specStep, step, checkpoint, previous, commitStep,
+    credit, enum1, enumFrom, initialAuthor, checkpointAttr, lookup, effective]
 
 end GitAi.Sys
 
@@ -273,4 +281,4 @@ end GitAi.Sys
 #print axioms GitAi.Split3.split_outputs_wf
 #print axioms GitAi.Sys.every_commit_exact
 #print axioms GitAi.Sys.pending_line_carried
-#print axioms GitAi.Sys.witness_pending_edited_before_checkpoint
+#print axioms GitAi.Sys.regression_pending_edited_before_checkpoint
